@@ -132,8 +132,10 @@ def finish(res: Result, *, tier: str, seed: int, t0: float, checker_cmd: str, as
     # baseline: obligations that disappeared => checker error
     base = load_baseline(prop)
     missing = []
-    if base is not None and not res.errors and not res.crashes:
-        have = set(res.obligations)
+    if base is not None and not res.errors and not res.crashes and os.environ.get('VERIF_ONLY') != '1':
+        # vacuity guard: every obligation FAMILY (the name up to its [case] tag) that is discharged on the unchanged tree must still be
+        # generated; tags may legitimately change with the code, families may not silently vanish
+        have = {n.split('[')[0] for n in res.obligations}
         missing = [b for b in base if b not in have]
     exit_code = 0
     lines = []
